@@ -1,7 +1,9 @@
 SPECIFICATION Spec
 CONSTANTS
-  Subs = {"a", "b"}
-  Timeouts = {3, 6, 10, 12, 17}
+  Subs1 = {"a", "b"}
+  Timeouts1 = {3, 10, 17}
+  Subs2 = {}
+  Timeouts2 = {}
   Tick = 5
   UnitMs = 100
   Exact = TRUE
